@@ -1294,7 +1294,14 @@ def print_parse(cases):
                 r["text"] = txt
                 r["stage"] = "parse2"
                 t2 = parse(txt, c.get("clause"))
-                r["back"] = T.from_problog(t2, {})
+                try:
+                    r["back"] = T.from_problog(t2, {})
+                except TypeError as e:
+                    if not str(e).startswith("cannot convert"):
+                        raise
+                    # the printed text was read back as something that is not a term at all (e.g. "X<-[a]" read as the
+                    # clause operator <- with a Python list inside): certainly not the term that was printed
+                    r["back"] = T.A("<re-parsed text is not a term>")
                 r["ok"] = 1
             except ProbLogError as e:
                 r["ok"] = 2
